@@ -211,6 +211,29 @@ def rewritten_input_results(doc, listing1, listing2):
     return out
 
 
+def constructed_first_results(docs, listing_text, ret="list"):
+    """All MasterOfPuppets objects are CONSTRUCTED first (rule files read, rules compiled or not - that is the object's
+    business), only then each is run, in order; the first object is finally run a second time.
+    -> [result per object ..., result of the first object's second run]"""
+    from jasm.global_definitions import InputFileType, MatchConfig, MatchingReturnMode, MatchingSearchMode
+    from jasm.match import MasterOfPuppets
+
+    with scratch() as d:
+        a = os.path.join(d, "in.s")
+        with open(a, "w") as f:
+            f.write(listing_text)
+        objs = []
+        for k, doc in enumerate(docs):
+            p = os.path.join(d, f"rule{k}.yaml")
+            with open(p, "w") as f:
+                yaml.safe_dump(doc, f, sort_keys=False)
+            objs.append(MasterOfPuppets(MatchConfig(pattern_pathstr=p, input_file=a, input_file_type=InputFileType.assembly, return_only_address=True,
+                                                    return_mode={"list": MatchingReturnMode.matched_addrs_list, "stream": MatchingReturnMode.all_instructions_string}[ret], matching_mode=MatchingSearchMode.all_finds)))
+        out = [o.perform_matching() for o in objs]
+        out.append(objs[0].perform_matching())
+        return out
+
+
 def decode_stream(s):
     """WF stream text -> [(addr, mnem, [ops])]  (the decoder C10 says exists)"""
     out = []
